@@ -95,7 +95,7 @@ type vwStats struct {
 	needFrom, repairsDone, trailingDelivered, replaceCalls            atomic.Int64
 	crashAtReplace, crossNodeDeposedAck, retryRefusedHigherAuthority  atomic.Int64
 	committedPairsCompared, chainEntriesVerified                      atomic.Int64
-	commitBackpressured, commitUnavailable                            atomic.Int64
+	commitBackpressured, commitUnavailable, conflictGarbageRow       atomic.Int64
 }
 
 type vwLog struct {
@@ -1284,12 +1284,24 @@ func (w *vw) applyCommit(n *vwNode, k int, kind string, before []vwLog) (string,
 		if w.o.oC03 && kind == "commitx" {
 			if ai, ok := w.ackOf[k]; ok && w.acks[ai].variant != variant {
 				w.st.conflictRejected.Add(1)
-				// "stores nothing": no committed / acknowledged state may change; a
-				// rejected conflicting retry must not alter any log at or below an
-				// acknowledged sequence (checked by the state invariants) and must not
-				// write at a node that already holds the acknowledged command.
-				if held, _ := holds(before[ni], w.acks[ai]); held && !sameLogs(before, after) {
-					return obs, mc.Violatef("C03:conflicting-retry-stored-rows", "rejected conflicting retry of acknowledged c%d at node %d (which holds it) changed a replica log", k, n.id)
+				// "stores nothing": a rejected conflicting retry must not change the log of
+				// any replica that holds the acknowledged command, nor any committed
+				// watermark. (A replica that never received the command may take the
+				// rejected proposal as an uncommitted row when the deciding leader's
+				// sequencer is behind its own store - counted, see level_note.)
+				ack := w.acks[ai]
+				for i := range w.nodes {
+					held, _ := holds(before[i], ack)
+					same := sameLogs(before[i:i+1], after[i:i+1])
+					if held && !same {
+						return obs, mc.Violatef("C03:conflicting-retry-stored-rows", "rejected conflicting retry of acknowledged c%d at node %d changed the log of node %d, which holds the acknowledged command", k, n.id, i+1)
+					}
+					if !same {
+						if after[i].committed != before[i].committed {
+							return obs, mc.Violatef("C03:conflicting-retry-moved-committed", "rejected conflicting retry of acknowledged c%d at node %d moved the committed watermark of node %d", k, n.id, i+1)
+						}
+						w.st.conflictGarbageRow.Add(1)
+					}
 				}
 			}
 		}
